@@ -178,6 +178,7 @@ impl<T: Value + Send + Sync, N: Unsigned, U: UpdateMap<T>> Vector<T, N, U> {
             &self.interface.backing.tree,
             &mut known_subtrees,
             self.interface.backing.depth,
+            N::to_usize(),
         )? {
             self.interface.backing.tree = new_tree;
         }
